@@ -554,7 +554,11 @@ func GenerateCalls(r *rng.R, name string, neg bool, stateful bool) *CProg {
 	if neg {
 		bad := fmt.Sprintf("Bad%d", nf)
 		texts = append(texts, fmt.Sprintf("func %s(%s uint64) uint64 {\n\treturn %s + 1\n}\n", bad, bad, bad))
-		if g.st {
+		if g.st && r.Bool() {
+			// the other refusal of the fragment: assignment to a variable declared with :=
+			texts[len(texts)-1] = fmt.Sprintf("func %s(a uint64) uint64 {\n\tx := a + 1\n\tx = x + 2\n\treturn x\n}\n", bad)
+			p.Terms[bad] = fmt.Sprintf("{| sf_name := %q; sf_params := [(\"a\", TU64)]; sf_body := (SLet \"x\" (CBin OAdd (CVar \"a\") (CLit 1%%Z)) (SAsg \"x\" (CBin OAdd (CVar \"x\") (CLit 2%%Z)) (SRet (CVar \"x\")))) |}", bad)
+		} else if g.st {
 			p.Terms[bad] = fmt.Sprintf("{| sf_name := %q; sf_params := [(%q, TU64)]; sf_body := (SRet (CBin OAdd (CVar %q) (CLit 1%%Z))) |}", bad, bad, bad)
 		} else {
 			p.Terms[bad] = fmt.Sprintf("{| cf_name := %q; cf_params := [%q]; cf_body := (CRet (CBin OAdd (CVar %q) (CLit 1%%Z))) |}", bad, bad, bad)
